@@ -491,15 +491,19 @@ Print Assumptions C04_close_after_push.
 (* ---- second extension round: the real semaphore's free-permit readings are part of the recorded run
    and are judged by the model (Model/CopyPermit.v), not only by the oracle ---- *)
 
-(* every reading f of an accepted run: the permits that the overlay knows to be held at that instant
-   plus the free ones fit into K -- hence the operations in flight plus the free permits do *)
+(* every reading f of an accepted run taken while the call runs: the permits that the overlay knows to
+   be held at that instant plus the free ones fit into K -- hence the operations in flight plus the
+   free permits do; a reading taken after the call returned (nil or an error) shows ALL K permits free
+   (a leaked permit is a rejected run; protocol-side: C04_all_permits_free_at_return) *)
 Theorem C04_permit_readings_bounded :
   forall (cs : cbset) (g : graph) (c : cfg) (d0 : list node) (tr1 : list pev) (f : nat) (tr2 : list pev)
          (st : state) (full : list event),
     paccepts_opt cs g c d0 (tr1 ++ PFree f :: tr2) = Some (st, full) ->
     exists st1 f1, paccepts_opt cs g c d0 tr1 = Some (st1, f1) /\
-                   holders g st1 + f <= c_K c /\ holders g st1 <= c_K c /\
-                   inflight_src g st1 + f <= c_K c /\ inflight_dst g st1 + f <= c_K c.
+      (returned st1 = None ->
+         holders g st1 + f <= c_K c /\ holders g st1 <= c_K c /\
+         inflight_src g st1 + f <= c_K c /\ inflight_dst g st1 + f <= c_K c) /\
+      (returned st1 <> None -> f = c_K c).
 Proof. exact readings_bounded. Qed.
 Print Assumptions C04_permit_readings_bounded.
 
@@ -543,9 +547,11 @@ Proof. exact cstep_opt_p_other_modes. Qed.
 Print Assumptions C04_runner_other_modes_unchanged.
 
 (* satisfiable and sharp: K = 2, both blobs of a manifest in their copy -- a reading of 0 free permits
-   is accepted, a reading of 1 is rejected although the events alone are a run of the overlay *)
+   is accepted, a reading of 1 is rejected although the events alone are a run of the overlay; the complete
+   run with 2 free permits after the return is accepted, with 1 (a leaked permit) rejected *)
 Example C04_permit_readings_example :
   (exists r, paccepts_opt all_set g_leaf c_perm [] ptr_ok = Some r) /\
   paccepts_opt all_set g_leaf c_perm [] ptr_bad = None /\
-  (exists r, accepts_opt_h all_set g_leaf c_perm [] (events_of ptr_bad) = Some r).
+  (exists r, accepts_opt_h all_set g_leaf c_perm [] (events_of ptr_bad) = Some r) /\
+  paccepts_opt all_set g_leaf c_perm [] ptr_leak = None.
 Proof. exact readings_example. Qed.
